@@ -76,7 +76,8 @@ pub fn check_positive(
     }
     let enc = encode_valid(&prog, pc.props, out)?;
     let len = enc.output.len() as u64;
-    let sink = SharedSink::new();
+    // the sink's acceptance pattern must not matter (mostly whole writes, sometimes 1 byte / random)
+    let sink = SharedSink::varied(ctx.index ^ enc.payload.len() as u64, enc.output.len());
     let obs = sut::new_obs(u64::MAX);
     obs.borrow_mut().record_syms = ctx.verbose;
     obs.borrow_mut().pb = Some(pc.props.pb);
